@@ -54,6 +54,9 @@ type c19Decoder struct {
 	// Ranges are further integer fields that the decoder narrows (e.g. int32
 	// on the wire to int8 in the value); same path syntax as IndexPaths.
 	Ranges []c19Range
+	// Variants is the number of value kinds Gen cycles through with i
+	// (Gen(rng, i) and Gen(rng, i+Variants) are of the same kind); 0 = 1.
+	Variants int
 	// SkipAccessors lists zero-argument exported methods that must not be
 	// called (documented to panic or to have side effects).
 	SkipAccessors []string
@@ -719,6 +722,44 @@ type c19Runner struct {
 	prefix string
 	sample int
 	armer  *c19Armer
+	ring   []*c19Kept // the last accepted decoded values, oldest first
+}
+
+// c19Kept is an earlier accepted result, remembered together with its
+// rendering taken right after its decode.
+type c19Kept struct {
+	val   c19Codec
+	canon string
+	desc  string
+}
+
+const c19RingSize = 3
+
+// keep remembers an accepted decoded value.
+func (c *c19Runner) keep(w c19Codec, canon, desc string) {
+	if len(c.ring) >= c19RingSize {
+		c.ring = append(c.ring[:0], c.ring[1:]...)
+	}
+	c.ring = append(c.ring, &c19Kept{w, canon, desc})
+}
+
+// checkRing re-renders the remembered earlier results after a later decode
+// (accepted or rejected): they must not have changed.
+func (c *c19Runner) checkRing(later string) {
+	for _, k := range c.ring {
+		var now string
+		if c.r.Guard(c.prefix, "re-rendering earlier result: "+k.desc, func() { now = c19Canon(k.val) }) {
+			continue
+		}
+		c.r.Count("earlier_results_rechecked", 1)
+		if now != k.canon {
+			c.r.Violation(c.prefix+"earlier-result-changed-by-later-decode",
+				"a value decoded earlier (into its own fresh receiver) renders differently after a later decode of the same decoder: decoded values share mutable state",
+				"earlier: "+k.desc+" || later: "+later,
+				map[string]string{"earlier_before": c19Clip(k.canon), "earlier_after": c19Clip(now)})
+			k.canon = now
+		}
+	}
 }
 
 func c19Short(b []byte) string {
@@ -820,6 +861,7 @@ func (c *c19Runner) run(di int) {
 		}
 		r.Case(fmt.Sprintf("%s roundtrip #%d %s", d.Type, i, c19Short([]byte(want))), false)
 		r.Count("round_trips", 1)
+		c.checkRing(desc)
 		if err != nil {
 			r.Violation(c.prefix+"roundtrip-decode-error", "decode(encode(v)) failed: "+err.Error(), desc, want)
 			continue
@@ -828,6 +870,7 @@ func (c *c19Runner) run(di int) {
 			r.Violation(c.prefix+"roundtrip-mismatch", "decode(encode(v)) != v", desc, map[string]string{"want": c19Clip(want), "got": c19Clip(got)})
 			continue
 		}
+		c.keep(w, want, desc)
 		c.use(w, desc)
 		if len(bases) < nBases && !(len(enc) > 2048 && len(bases) >= (nBases+2)/3) {
 			// damage bases (fewer for multi-kilobyte encodings, whose
@@ -843,6 +886,10 @@ func (c *c19Runner) run(di int) {
 		r.Inconclusive("no valid base encoding for " + d.Type)
 		return
 	}
+
+	// ---- targeted interleaving: decode(encode(v1)), decode(encode(v2)) with
+	// v1 != v2 of the same kind, then v1's result must still render as v1
+	c.interleave(r.N(20, 300))
 
 	// ---- (b) arbitrary bytes
 	rb := r.Rand("random/" + d.Type)
@@ -992,11 +1039,17 @@ func (c *c19Runner) probe(in []byte, class, spec string) {
 		}
 		r.Sample(s)
 	}
+	var canon string
+	if err == nil && r.Guard(c.prefix, full+" step=canon", func() { canon = c19Canon(w) }) {
+		return
+	}
+	c.checkRing(full)
 	if err != nil {
 		r.Count("rejected", 1)
 		return
 	}
 	r.Count("accepted", 1)
+	c.keep(w, canon, full)
 
 	// member indices carried by the accepted input
 	if len(d.IndexPaths) > 0 {
@@ -1058,10 +1111,6 @@ func (c *c19Runner) probe(in []byte, class, spec string) {
 		return
 	}
 	c.use(w, full)
-	var canon string
-	if r.Guard(c.prefix, full+" step=canon", func() { canon = c19Canon(w) }) {
-		return
-	}
 	if merr != nil {
 		r.Count("accepted_but_marshal_error", 1)
 		return
@@ -1071,6 +1120,7 @@ func (c *c19Runner) probe(in []byte, class, spec string) {
 	if r.Guard(c.prefix, full+" step=re-decode hex2="+verifkit.Hex(out), func() { err2 = w2.Unmarshal(out) }) {
 		return
 	}
+	c.checkRing(full + " step=re-decode")
 	if err2 != nil {
 		r.Violation(c.prefix+"accepted-value-reencoding-rejected",
 			"decoder accepted the input, Marshal of the decoded value succeeded, but decoding that encoding fails: "+err2.Error(),
@@ -1094,4 +1144,162 @@ func c19ClipHex(b []byte) string {
 		return h[:400] + "…"
 	}
 	return h
+}
+
+// interleave decodes pairs of different valid values of the same kind into
+// two fresh receivers, one after the other, and requires the first result to
+// be unaffected by the second decode (and vice versa with a third decode).
+func (c *c19Runner) interleave(n int) {
+	r, d := c.r, c.dec
+	step := d.Variants
+	if step < 1 {
+		step = 1
+	}
+	rng := r.Rand("interleave/" + d.Type)
+	for k := 0; k < n; k++ {
+		i1 := k
+		i2 := k + step*(1+rng.Intn(5))
+		var v1, v2 c19Codec
+		desc := fmt.Sprintf("%s interleave #%d (value indices %d,%d)", d.Type, k, i1, i2)
+		c.armer.arm(desc)
+		if r.Guard(c.prefix+"gen:", desc, func() { v1, v2 = d.Gen(rng, i1), d.Gen(rng, i2) }) {
+			return
+		}
+		want1, want2 := c19Canon(v1), c19Canon(v2)
+		var e1, e2 []byte
+		var err1, err2 error
+		if r.Guard(c.prefix, desc+" marshal", func() { e1, err1 = v1.Marshal(); e2, err2 = v2.Marshal() }) || err1 != nil || err2 != nil {
+			continue
+		}
+		desc += " hex1=" + verifkit.Hex(e1) + " hex2=" + verifkit.Hex(e2)
+		w1, w2, w3 := d.New(), d.New(), d.New()
+		var got1, got1b, got2, got2b string
+		var err3 error
+		if r.Guard(c.prefix, desc, func() {
+			err1 = w1.Unmarshal(e1)
+			got1 = c19Canon(w1)
+			err2 = w2.Unmarshal(e2)
+			got2 = c19Canon(w2)
+			got1b = c19Canon(w1)
+			err3 = w3.Unmarshal(e1)
+			got2b = c19Canon(w2)
+		}) {
+			continue
+		}
+		r.Case(fmt.Sprintf("%s interleave #%d %s", d.Type, k, c19Short([]byte(want1+want2))), false)
+		r.Count("interleavings", 1)
+		if want1 != want2 {
+			r.Count("interleavings_distinct_values", 1)
+		}
+		if err1 != nil || err2 != nil || err3 != nil {
+			continue // reported by the round-trip phase
+		}
+		if got1b != got1 || got1b != want1 || got2b != got2 || got2b != want2 {
+			r.Violation(c.prefix+"earlier-result-changed-by-later-decode",
+				"decode(e1) into a, decode(e2) into b, decode(e1) into c: a or b no longer renders as the value it was decoded from",
+				desc, map[string]string{"v1": c19Clip(want1), "a_right_after": c19Clip(got1), "a_after_b": c19Clip(got1b), "v2": c19Clip(want2), "b_right_after": c19Clip(got2), "b_after_c": c19Clip(got2b)})
+		}
+		c.checkRing(desc)
+	}
+}
+
+// c19RaceRun is the body of the ...Race tests: four goroutines decode
+// different valid values of the same kind at the same time, each into fresh
+// receivers, keep their previous result and re-render it after the next
+// decode. Monitor state is per goroutine and merged after Wait, so the only
+// synchronisation is the start barrier; decoders that share state show up as
+// race reports (driver) and/or as changed renderings (here).
+func c19RaceRun(r *verifkit.Run, pkg string, decs []c19Decoder) {
+	r.SetRule("4 goroutines concurrently decode generated valid encodings of one kind into fresh receivers and re-render their previous result after each decode; trivial inputs (valid encodings), the deciding signals are race reports in the marshaling files and changed renderings")
+	const workers = 4
+	iters, reps := r.N(30, 300), r.N(3, 10)
+	type job struct {
+		enc  []byte
+		want string
+	}
+	for di := range decs {
+		d := &decs[di]
+		prefix := "decode:" + pkg + "." + d.Type + ":"
+		step := d.Variants
+		if step < 1 {
+			step = 1
+		}
+		rng := r.Rand("race/" + d.Type)
+		nrep := reps
+		if nrep < step {
+			nrep = step // every kind at least once
+		}
+		for rep := 0; rep < nrep; rep++ {
+			variant := rep % step
+			jobs := make([][]job, workers)
+			ok := true
+			for g := 0; g < workers && ok; g++ {
+				for k := 0; k < iters; k++ {
+					var v c19Codec
+					var enc []byte
+					var err error
+					idx := variant + step*(8+rng.Intn(1000))
+					if r.Guard(prefix+"gen:", "race value generation", func() { v = d.Gen(rng, idx); enc, err = v.Marshal() }) || err != nil {
+						ok = false
+						break
+					}
+					jobs[g] = append(jobs[g], job{enc, c19Canon(v)})
+				}
+			}
+			if !ok {
+				r.Inconclusive("cannot generate values for the concurrent decode of " + d.Type)
+				break
+			}
+			type slot struct {
+				bad      []string
+				panicked bool
+				done     int
+			}
+			slots := make([]slot, workers)
+			start := make(chan struct{})
+			doneCh := make(chan int, workers)
+			for g := 0; g < workers; g++ {
+				go func(g int) {
+					defer func() { doneCh <- g }()
+					<-start
+					var prev c19Codec
+					var prevWant string
+					for k, jb := range jobs[g] {
+						jb := jb
+						if r.Guard(prefix, fmt.Sprintf("%s concurrent decode rep=%d g=%d k=%d hex=%s", d.Type, rep, g, k, verifkit.Hex(jb.enc)), func() {
+							w := d.New()
+							if err := w.Unmarshal(jb.enc); err != nil {
+								slots[g].bad = append(slots[g].bad, fmt.Sprintf("g=%d k=%d decode error %v hex=%s", g, k, err, verifkit.Hex(jb.enc)))
+								return
+							}
+							if got := c19Canon(w); got != jb.want {
+								slots[g].bad = append(slots[g].bad, fmt.Sprintf("g=%d k=%d fresh result differs from the encoded value hex=%s", g, k, verifkit.Hex(jb.enc)))
+							}
+							if prev != nil {
+								if now := c19Canon(prev); now != prevWant {
+									slots[g].bad = append(slots[g].bad, fmt.Sprintf("g=%d k=%d previous result changed after this decode hex=%s", g, k, verifkit.Hex(jb.enc)))
+								}
+							}
+							prev, prevWant = w, jb.want
+						}) {
+							slots[g].panicked = true
+						}
+						slots[g].done++
+					}
+				}(g)
+			}
+			close(start)
+			for g := 0; g < workers; g++ {
+				<-doneCh
+			}
+			for g := range slots {
+				r.Count("concurrent_decodes", int64(slots[g].done))
+				for _, b := range slots[g].bad {
+					r.Violation(prefix+"earlier-result-changed-by-later-decode",
+						"concurrent decodes into fresh receivers interfere: "+c19Clip(b), fmt.Sprintf("%s concurrent rep=%d %s", d.Type, rep, b), nil)
+				}
+			}
+			r.Case(fmt.Sprintf("%s concurrent rep=%d variant=%d x%d goroutines x%d decodes", d.Type, rep, variant, workers, iters), false)
+		}
+	}
 }
